@@ -29,13 +29,16 @@ def scenario(tier):
             r = b.run("create", root=child, h=cf)
             b.require(r.exit == 0, "setup-create", str(r))
         f1 = sym.choose("fmt1", FS)
-        gens = sym.choose("generations", [1, 2])
-        nflag = sym.choose("n_generation", [0, 1, 2]) if gens == 2 else 0  # which generation (if any) is written with -n
+        gens = sym.choose("generations", [1, 2] if tier == "quick" else [1, 2, 3])
+        nflag = sym.choose("n_generation", [0, 1, 2]) if gens >= 2 else 0  # which generation (if any) is written with -n
         r = b.run("create", root="R", h=f1, n=(nflag == 1))
         b.require(r.exit == 0 and r.exc is None, "setup-create", str(r))
-        if gens == 2:
+        if gens >= 2:
             f2 = sym.choose("fmt2", FS)
             r = b.run("create", root="R", h=f2, n=(nflag == 2))
+            b.require(r.exit == 0 and r.exc is None, "setup-create", str(r))
+        if gens == 3:
+            r = b.run("create", root="R", h=sym.choose("fmt3", FS[:2]), sf=[sorted(files)[0]] if sym.flag("third_is_sf") else ())
             b.require(r.exit == 0 and r.exc is None, "setup-create", str(r))
         r = b.run("verify", root="R", dh=True)
         b.require(r.exit == 0 and r.exc is None, "unchanged-exit-0", "%s layout=%s" % (r, layout))
@@ -81,7 +84,7 @@ def harnesses(tier):
                     what="seal flat / U1 / nested tree (1-2 generations, format sets, one generation optionally -n, child history in another "
                          "format), one mutation at any node incl. root level, then verify -dh",
                     bounds={"layouts": "flat R/{a,b}; U1; nested R/{s,A/{a1,AA/{aa1}},AB/{ab1}} with child history at A/AA or A (md5|xxh64)",
-                            "generations": "1-2, at least one with directory hashes", "formats": FS,
+                            "generations": "1-2 (quick) / 1-3 (thorough), at least one with directory hashes", "formats": FS,
                             "mutations": "alter (same / fresh / another file's content) | rename in place | add file/empty dir in any directory | remove any file / empty dir"},
                     outside=["histories in which no generation has directory hashes", "explicit -h / -ro / -co options",
                              "tree changes between generations (statement covers trees identical to every generation, or changed after all)"])]
